@@ -217,15 +217,17 @@ impl NoGoodStore {
                 DuplicateElemination::None => true,
                 DuplicateElemination::Equiv => !self.store[idx].contains(&nogood),
                 DuplicateElemination::Subsume => {
-                    self.store
-                        .iter_mut()
-                        .enumerate()
-                        .for_each(|(cur_idx, ng_vec)| {
-                            if idx >= cur_idx {
-                                ng_vec.retain(|ng| !ng.is_violating(&nogood));
-                            }
-                        });
-                    true
+                    if self.store[..=idx]
+                        .iter()
+                        .any(|ng_vec| ng_vec.iter().any(|ng| ng.is_violating(&nogood)))
+                    {
+                        false
+                    } else {
+                        self.store[idx..]
+                            .iter_mut()
+                            .for_each(|ng_vec| ng_vec.retain(|ng| !nogood.is_violating(ng)));
+                        true
+                    }
                 }
             } {
                 self.store[idx].push(nogood);
